@@ -32,6 +32,7 @@ type wcStep struct {
 	Ext   []int64  `json:"ext"`
 	Drop  int      `json:"drop"`
 	Len   int      `json:"len"`
+	Path  string   `json:"path"` // START: "" or "A" = the base path, "B" = a second one, "keep" = no path in the request, "bad" = uncreatable
 }
 type wcScen struct {
 	Nchan  int      `json:"nchan"`
@@ -496,11 +497,31 @@ func wcRun(id int, sc *wcScen) {
 	dirIdx := map[string]int{}
 	dirCounter := 0
 	today := time.Now().Format("20060102")
+	baseB := filepath.Join(base, "second")
+	os.MkdirAll(baseB, 0775)
+	blocker := filepath.Join(base, "a-regular-file")
+	os.WriteFile(blocker, []byte("x"), 0664)
+	badPath := filepath.Join(blocker, "data") // no directory can be made below a regular file
+	baseIdx := func(p string) int { // 0 none, 1 base, 2 second base, 3 the uncreatable one, 4 anything else
+		switch p {
+		case "":
+			return 0
+		case base:
+			return 1
+		case baseB:
+			return 2
+		case badPath:
+			return 3
+		}
+		return 4
+	}
 	listDirs := func() map[string]bool {
 		m := map[string]bool{}
-		es, _ := os.ReadDir(filepath.Join(base, today))
-		for _, e := range es {
-			m[filepath.Join(base, today, e.Name())] = true
+		for _, b := range []string{base, baseB} {
+			es, _ := os.ReadDir(filepath.Join(b, today))
+			for _, e := range es {
+				m[filepath.Join(b, today, e.Name())] = true
+			}
 		}
 		return m
 	}
@@ -516,7 +537,7 @@ func wcRun(id int, sc *wcScen) {
 			}
 			d = dirIdx[dir]
 		}
-		return vmap{"active": ws.Active, "paused": ws.Paused, "l22": ws.WriteLJH22, "l3": ws.WriteLJH3, "off": ws.WriteOFF, "dir": d}, ws.FilenamePattern
+		return vmap{"active": ws.Active, "paused": ws.Paused, "l22": ws.WriteLJH22, "l3": ws.WriteLJH3, "off": ws.WriteOFF, "dir": d, "base": baseIdx(ws.BasePath)}, ws.FilenamePattern
 	}
 	nextFrame := FrameIndex(sc.Frame0)
 	t0 := time.Unix(0, sc.Time0)
@@ -566,7 +587,19 @@ func wcRun(id int, sc *wcScen) {
 				if st.Label != "" {
 					req = st.Req + " " + st.Label
 				}
-				cfg := &WriteControlConfig{Request: req, Path: base, WriteLJH22: has(st.Types, "L22"), WriteLJH3: has(st.Types, "L3"), WriteOFF: has(st.Types, "OFF")}
+				reqPath, wantBase := base, 1
+				switch st.Path {
+				case "B":
+					reqPath, wantBase = baseB, 2
+				case "keep":
+					reqPath, wantBase = "", 0
+					if ds.ComputeWritingState().BasePath == "" {
+						reqPath, wantBase = base, 1 // never let a START without a path run before a base path exists (it would write below the working directory)
+					}
+				case "bad":
+					reqPath, wantBase = badPath, 3
+				}
+				cfg := &WriteControlConfig{Request: req, Path: reqPath, WriteLJH22: has(st.Types, "L22"), WriteLJH3: has(st.Types, "L3"), WriteOFF: has(st.Types, "OFF")}
 				_, patBefore := report()
 				dBefore := 0
 				if patBefore != "" {
@@ -586,7 +619,12 @@ func wcRun(id int, sc *wcScen) {
 						open++
 					}
 				}
-				vEmit(vmap{"ev": "Req", "req": strings.ToUpper(st.Req), "label": st.Label, "types": types, "ok": err == nil, "rep": rep, "dirnew": isnew, "open": open})
+				dirBase := 0
+				if pat != "" {
+					dirBase = baseIdx(filepath.Dir(filepath.Dir(filepath.Dir(pat)))) // <base>/<date>/<run>/<pattern>
+				}
+				vEmit(vmap{"ev": "Req", "req": strings.ToUpper(st.Req), "label": st.Label, "types": types, "ok": err == nil, "rep": rep, "dirnew": isnew, "open": open,
+					"wantbase": wantBase, "dirbase": dirBase})
 				if pat != "" {
 					lastPattern, lastDir = pat, dirIdx[filepath.Dir(pat)]
 					allPatterns[pat] = lastDir
@@ -714,6 +752,7 @@ func wcRandom(rng interface{ Intn(int) int }, i int) *wcScen {
 	sc.Signed = rng.Intn(2) == 0
 	n := 4 + rng.Intn(24)
 	alltypes := []string{"L22", "L3", "OFF"}
+	started := false
 	for j := 0; j < n; j++ {
 		var st wcStep
 		x := rng.Intn(20)
@@ -733,6 +772,17 @@ func wcRandom(rng interface{ Intn(int) int }, i int) *wcScen {
 			}
 			if rng.Intn(3) == 0 {
 				st.Req = "start"
+			}
+			switch y := rng.Intn(10); {
+			case y < 2:
+				st.Path = "B"
+			case y < 4 && started:
+				st.Path = "keep"
+			case y < 5:
+				st.Path = "bad"
+			}
+			if st.Path != "bad" && len(st.Types) > 0 {
+				started = true // (an approximation of "a START has been accepted": a first START without a path is never generated)
 			}
 		case x < 7:
 			st = wcStep{K: "req", Req: "STOP"}
